@@ -304,6 +304,13 @@ fn elem_generic<T: PartialOrd + Copy + Debug + PartialEq>(c: &ElemCase, map: imp
     // on the supplied order too when it happens to be sorted the two agree by the above; on sorted input `ci` must agree as well
     let got_ci_sorted = call(|| quantile::ci(conf, &sorted, q));
     ensure!(same(&got_ci_sorted, &got_ci), "C03/ci/order_dependent", "ci on {data:?} = {} but on the sorted data = {}", got_ci.describe(), got_ci_sorted.describe());
+    // a container whose borrowed iterator has a loose size_hint (lower bound 0, upper bound too large)
+    let sp = crate::gen::sparse(&data, c.codes.len() as u64 * 131 + c.codes.first().copied().unwrap_or(0) as u64, 1 + n / 3);
+    let got_sparse = call(|| quantile::ci(conf, &sp, q));
+    ensure!(same(&got_sparse, &expected), "C03/ci/sparse_container", "ci on a container that yields {data:?} through a filtering iterator = {}, expected {}", got_sparse.describe(), expected.describe());
+    let got_sparse_cap = call(|| quantile::ci_max_size::<T, crate::gen::Sparse<T>, 1024>(conf, &sp, q));
+    ensure!(same(&got_sparse_cap, &expected), "C03/ci_max_size/sparse_container", "ci_max_size on a container that yields {data:?} through a filtering iterator = {}, expected {}", got_sparse_cap.describe(), expected.describe());
+    obs.evals(2);
     // fixed-capacity variants
     for (name, r) in [
         ("CAP=1024", Some(call(|| quantile::ci_max_size::<T, Vec<T>, 1024>(conf, &data, q)))),
